@@ -114,7 +114,7 @@ class Check(CheckBase):
     pid = "C16"
     title = "board-state round trips"
     bounds = {"value": "all signed 32-bit values (symbolic)", "slot": "0..28 (symbolic)", "RAM": "arbitrary initial contents (z3 array)",
-              "motor request": "r1, r2 symbolic in [-2^31, 2^31]", "prior board state": "mode 1..5, motor 1/2 on/off, single-motor option on/off: all symbolic",
+              "motor request": "r1, r2 symbolic in [-2^31, 2^31]; also after one earlier request (0..2; thorough 0..5) on the same object followed by an arbitrary change of the board state, and (thorough) after two earlier requests (0..2)", "prior board state": "mode 1..5, motor 1/2 on/off, single-motor option on/off: all symbolic",
               "nickname": "0..4 symbolic characters over letters, digits, space, underscore, comma"}
     outside = ["the real firmware (the board model above is the trusted base)", "values outside int32 (OverflowError in Python)",
                "sequences of operations: each operation is proved from an arbitrary prior board state, so sequences follow by induction"]
@@ -128,7 +128,10 @@ class Check(CheckBase):
         return d
 
     def cases(self, tier):
-        cs = [{"label": "int32"}, {"label": "var8"}, {"label": "motors_enable"}, {"label": "motors_query"}]
+        cs = [{"label": "int32"}, {"label": "var8"}, {"label": "motors_enable"}, {"label": "motors_query"},
+              {"label": "motors_enable/after-earlier-requests-and-power-cycle", "split_depth": 6, "pmax": 2 if tier == "quick" else 5}]
+        if tier == "thorough":
+            cs.append({"label": "motors_enable/after-earlier-requests", "split_depth": 6, "pmax": 2})
         for n in range(0, 5):
             cs.append({"label": "nickname/%d" % n, "n": n})
         return cs
@@ -191,9 +194,26 @@ class Check(CheckBase):
                 run.prove("motors_query:decodes-mode-and-enables",
                           z3.And(a == z3.If(board.m1, board.mode, 0), b == z3.If(board.m2, board.mode, 0)))
             return
-        if label == "motors_enable":
+        if label.startswith("motors_enable"):
+            label = "motors_enable"
             r1 = run.int("r1", -I32, I32)
             r2 = run.int("r2", -I32, I32)
+            if "after-earlier" in case["label"]:
+                # two earlier requests on the same object (any resolutions 0..5): whatever the object remembers must
+                # stay consistent with the board
+                cyc = "power-cycle" in case["label"]
+                for k in ((1,) if cyc else (1, 2)):
+                    p1, p2 = run.int("prior%d_r1" % k, 0, case.get("pmax", 2)), run.int("prior%d_r2" % k, 0, case.get("pmax", 2))
+                    obj.motors_enable(p1, p2)
+                if obj.err is not None or board.bad:
+                    run.prove("motors_enable:earlier-requests-succeed", z3.BoolVal(False), info={"err": str(obj.err)[:200], "bad": board.bad})
+                    return
+                if cyc:
+                    # the board is power-cycled / re-flashed / driven by another host in between: any motor state again
+                    board.mode = run.int("board2_mode", 1, 5).t
+                    board.m1 = run.bool("board2_m1").t
+                    board.m2 = run.bool("board2_m2").t
+                    board.single = run.bool("board2_single_motor_allowed").t
             mode0 = board.mode
             obj.motors_enable(r1, r2)
             c1, c2 = clamp05(r1.t), clamp05(r2.t)
@@ -311,9 +331,21 @@ class Check(CheckBase):
                 res = obj.motors_query_enabled()
                 exp = (b.mode if b.m1 else 0, b.mode if b.m2 else 0)
                 return None if res == exp else {"returned": res, "expected": exp}
-            if label == "motors_enable":
+            if label.startswith("motors_enable"):
                 r1, r2 = int(i["r1"]), int(i["r2"])
-                prior = (b.mode, b.m1, b.m2, b.single)
+                earlier = []
+                if "after-earlier" in label:
+                    for k in (1, 2):
+                        if "prior%d_r1" % k in i:
+                            earlier.append((int(i["prior%d_r1" % k]), int(i["prior%d_r2" % k])))
+                            obj.motors_enable(*earlier[-1])
+                    if "power-cycle" in label:
+                        b.mode = int(i["board2_mode"])
+                        b.m1 = i["board2_m1"] in (True, "True")
+                        b.m2 = i["board2_m2"] in (True, "True")
+                        b.single = i["board2_single_motor_allowed"] in (True, "True")
+                prior = (b.mode, b.m1, b.m2, b.single, earlier)
+                del port.writes[:]
                 obj.motors_enable(r1, r2)
                 c1, c2 = max(0, min(5, r1)), max(0, min(5, r2))
                 want = c1 if c1 else c2
